@@ -137,3 +137,30 @@ Fixpoint dict_values (a : parr) : list parr :=
     | _, _ => flat_map dict_values kids
     end
   end.
+
+(* the array tree has the shape of its type: one child per nested field, of that field's type *)
+Fixpoint shaped (t : dty) (a : parr) {struct t} : Prop :=
+  p_ty a = t /\
+  match t with
+  | TList _ _ c | TListView _ _ c | TFixedList _ _ c => exists k, p_kids a = [k] /\ shaped c k
+  | TStruct fs =>
+      (fix go (fs : list (bool * dty)) (ks : list parr) : Prop :=
+         match fs, ks with
+         | [], [] => True
+         | f :: fs', k :: ks' => shaped (snd f) k /\ go fs' ks'
+         | _, _ => False
+         end) fs (p_kids a)
+  | TUnion dense fs =>
+      length (p_bufs a) = (if dense then 2 else 1) /\
+      (fix go (fs : list (Z * dty)) (ks : list parr) : Prop :=
+         match fs, ks with
+         | [], [] => True
+         | f :: fs', k :: ks' => shaped (snd f) k /\ go fs' ks'
+         | _, _ => False
+         end) fs (p_kids a)
+  | TRee rw v => exists r k, p_kids a = [r; k] /\ p_ty r = TFixed rw /\ p_kids r = [] /\ shaped v k
+  | TView _ => p_bufs a <> []
+  | TDict _ _ _ => True
+  | _ => p_kids a = []
+  end.
+
